@@ -531,7 +531,8 @@ func (c *client) receive(r io.Reader) (err error) {
 	defer func() { returnResult(rpc, response, err) }()
 
 	if header.Exception != nil {
-		err = exceptionToError(*header.Exception.ExceptionClassName, *header.Exception.StackTrace)
+		err = exceptionToError(header.Exception.GetExceptionClassName(),
+			header.Exception.GetStackTrace())
 		return
 	}
 
